@@ -13,6 +13,7 @@ import (
 	"crypto/elliptic"
 	"crypto/rand"
 	"crypto/rsa"
+	"crypto/tls"
 	"crypto/x509"
 	"crypto/x509/pkix"
 	"encoding/base64"
@@ -22,6 +23,7 @@ import (
 	"math/big"
 	"net"
 	"net/http"
+	"net/http/httptest"
 	"path/filepath"
 	"strings"
 	"sync"
@@ -249,6 +251,80 @@ func c01NewMaterial(t *testing.T, envU *verifEnv, deniedKey *ecdsa.PrivateKey) *
 	c01Must(err)
 	m.chains["main-ip-svc"] = [][]*x509.Certificate{{leaf2, mainCert}}
 	return m
+}
+
+// ---------------------------------------------------------------- real TLS in front of the handler
+
+type c01TLSCase struct {
+	cfg, shp int
+	name     string
+	chain    [][]*x509.Certificate
+	class    int
+	status   int
+	errText  string
+}
+
+// The enumeration sets http.Request.TLS.VerifiedChains itself.  Here the same handler sits behind a
+// real crypto/tls server configured like main() (ClientCAs = state.ClientCAPool,
+// VerifyClientCertIfGiven) and the client really presents the certificate: the handshake builds
+// the verified chains (or refuses the certificate).  The peer address is 127.0.0.1.
+func c01RealTLS(t *testing.T, w *c01Worker, shapes []c01Shape) []c01TLSCase {
+	st := w.envU.state
+	srv := httptest.NewUnstartedServer(w.envU.handler)
+	srv.TLS = &tls.Config{ClientCAs: st.ClientCAPool, ClientAuth: tls.VerifyClientCertIfGiven, MinVersion: tls.VersionTLS12}
+	srv.StartTLS()
+	defer srv.Close()
+	pub := &w.mat.keys.ec.PublicKey
+	local := w.envU.ipRestrictedChain("svc-automation", []net.IPNet{mustCIDR("127.0.0.0/8")}, pub)
+	cases := []c01TLSCase{
+		{cfg: 1, shp: 51, name: "keymaster client certificate, [password]", chain: w.mat.chains["km-alice"]},
+		{cfg: 4, shp: 51, name: "keymaster client certificate, [U2F]", chain: w.mat.chains["km-alice"]},
+		{cfg: 1, shp: 53, name: "certificate of a CA the server does not know, [password]", chain: w.mat.chains["foreign-alice"]},
+		{cfg: 16, shp: 56, name: "IP-restricted certificate for 127.0.0.0/8, [IPCertificate]", chain: local},
+		{cfg: 4, shp: 56, name: "IP-restricted certificate for 127.0.0.0/8, [U2F]", chain: local},
+		{cfg: 16, shp: 57, name: "IP-restricted certificate for 10.0.0.0/8, [IPCertificate]", chain: w.mat.chains["ip-svc"]},
+		{cfg: 1, shp: 54, name: "keymaster certificate with a deny-listed key, [password]", chain: w.mat.chains["km-alice-denied"]},
+		{cfg: 1, shp: 0, name: "no client certificate, no cookie", chain: nil},
+	}
+	for i := range cases {
+		c := &cases[i]
+		st.Config.Base.AllowedAuthBackendsForCerts = c01Cfg(c.cfg)
+		tc := &tls.Config{InsecureSkipVerify: true}
+		if c.chain != nil {
+			var key crypto.PrivateKey = w.mat.keys.ec
+			if c.shp == 54 {
+				key = w.mat.deniedKey
+			}
+			tc.Certificates = []tls.Certificate{{Certificate: [][]byte{c.chain[0][0].Raw}, PrivateKey: key}}
+		}
+		client := &http.Client{Transport: &http.Transport{TLSClientConfig: tc}, Timeout: 10 * time.Second}
+		inner := verifCertgenRequest("POST", c01Names[shapes[c.shp].target], "ssh", w.mat.keys.sshPub, nil, nil)
+		body, _ := ioutil.ReadAll(inner.Body)
+		req, err := http.NewRequest("POST", srv.URL+certgenPath+c01Names[shapes[c.shp].target], strings.NewReader(string(body)))
+		c01Must(err)
+		req.Header.Set("Content-Type", inner.Header.Get("Content-Type"))
+		resp, err := client.Do(req)
+		if err != nil {
+			// the handshake refused the certificate: no response at all, certainly no certificate
+			c.errText = err.Error()
+			c.class = 0
+			continue
+		}
+		b, _ := ioutil.ReadAll(resp.Body)
+		resp.Body.Close()
+		c.status = resp.StatusCode
+		c.class = 1
+		if resp.StatusCode >= 400 {
+			c.class = 0
+		}
+		if resp.StatusCode == 200 {
+			if crt := verifParseCertBody(b); crt != nil && crt.kind == "ssh" && len(crt.principals) == 1 {
+				c.class = 2 + 4*c01UID(crt.principals[0])
+			}
+		}
+		client.CloseIdleConnections()
+	}
+	return cases
 }
 
 const (
@@ -722,6 +798,14 @@ func TestVerif_C01(t *testing.T) {
 			res.bump("yaml-config-path")
 		}
 	}
+	// ---- the same handler behind a real TLS server
+	tlsCases := c01RealTLS(t, w, shapes)
+	for _, tcase := range tlsCases {
+		c := c01Case{tcase.cfg, tcase.shp, 0, 0, 0}
+		c01Judge(res, shapes, c, c01Obs{status: tcase.status, class: tcase.class, user: c01Names[(tcase.class-2)/4&7], kind: "ssh"}, "real-tls")
+		res.eval(fmt.Sprintf("tls|%d|%d|%d", tcase.cfg, tcase.shp, tcase.class), true)
+		res.bump("real-tls-handshake")
+	}
 	// ---- Coq case file: only the observed classes
 	var sb strings.Builder
 	sb.WriteString(coqCaseHeader)
@@ -744,6 +828,14 @@ func TestVerif_C01(t *testing.T) {
 	sb.WriteString("Definition c01_mismatches := Eval vm_compute in (" + strings.Join(parts, " ++ ") + ").\nPrint c01_mismatches.\n")
 	sb.WriteString(fmt.Sprintf("Definition c01_ncases := Eval vm_compute in %d.\nPrint c01_ncases.\n", total))
 	sb.WriteString(fmt.Sprintf("(* the harness and the model enumerate the same number of cases and shapes *)\nDefinition c01_size_mismatches := Eval vm_compute in (if (%s =? %d) && (n_shapes =? %d) && (n_cfgs =? %d) then @nil N else [0]).\nPrint c01_size_mismatches.\n", modelTotal, total, nShapes, c01NCfgs))
+	sb.WriteString("Definition tls_cases : list (N * N * N) := [")
+	for i, tcase := range tlsCases {
+		if i > 0 {
+			sb.WriteString("; ")
+		}
+		sb.WriteString(fmt.Sprintf("(%d, %d, %d)", tcase.cfg, tcase.shp, tcase.class))
+	}
+	sb.WriteString("].\nDefinition c01_tls_mismatches := Eval vm_compute in mismatches (fun c : N * N * N => let '(cf, sh, o) := c in negb (run_case cf sh 0 0 0 =? o)) tls_cases.\nPrint c01_tls_mismatches.\n")
 	if err := ioutil.WriteFile(filepath.Join(verifOut(), "CasesC01.v"), []byte(sb.String()), 0644); err != nil {
 		t.Fatal(err)
 	}
